@@ -4,6 +4,7 @@ import NavisModel.Drv.C20
 import NavisModel.Drv.Prune
 import NavisModel.Drv.C08
 import NavisModel.Drv.C19
+import NavisModel.Drv.C16
 /-! `navisdrv`: one request per line on stdin (`<prop>.<cmd> <payload>`), one answer per line on stdout. -/
 open Navis
 
@@ -15,6 +16,7 @@ def handle (head rest : String) : Option String :=
   | ["p", cmd] => Drv.Prune.run cmd rest
   | ["c08", cmd] => Drv.C08.run cmd rest
   | ["c19", cmd] => Drv.C19.run cmd rest
+  | ["c16", cmd] => Drv.C16.run cmd rest
   | ["ping"] => some "pong"
   | _ => none
 
